@@ -589,6 +589,80 @@ def tab_dec(ctx):
 
 
 def ascii_dec_table(f, rule):
+    """{(after upper shift?, codeword): step} of the ASCII decoder - read off the body of its `while let Ok(ch) = data.eat()` loop
+    folded per (state, codeword); when the loop does not have that shape (no state flag, restructured arms), read off
+    decode_ascii folded as a whole on the two- and three-codeword streams [cw, 'B'+1] and [235, cw, 'B'+1]"""
+    from .core import AnchorMissing
+    try:
+        return _ascii_dec_table_loop(f, rule)
+    except AnchorMissing as ex:
+        tab = _ascii_dec_table_exec(f)
+        if tab is None:
+            raise ex
+        return tab, T.span_str(f.thir["decodation::decode_ascii"]["span"])
+
+
+def _ascii_dec_table_exec(f):
+    fn = "decodation::decode_ascii"
+    b = f.thir.get(fn)
+    if b is None or len(b["params"]) != 3 or any((p_.get("pat") or {}).get("k") != "Bind" for p_ in b["params"]):
+        return None
+    ps = [p_["pat"]["name"] for p_ in b["params"]]
+    NEXT = 67          # codeword of 'B'
+
+    def run(stream):
+        rd = {"__adt__": "decodation::Reader", "__variant__": "Reader", "0": list(stream), "#0": list(stream), "1": 4, "#1": 4}
+        out = []
+
+        def on_call(folder, c):
+            if T.canon(T.callee_of(c)) == "decodation::read_eci":
+                raise _Special("eci")
+            return NotImplemented
+        fo = T.Folder(f, env={ps[0]: rd, ps[1]: out, ps[2]: []}, on_call=on_call, effects=True, local_calls=3)
+        res = fo.run(b["body"])
+        left = None
+        mode = None
+        if isinstance(res, dict) and res.get("__variant__") == "Ok":
+            tup = res.get("#0")
+            if isinstance(tup, (tuple, list)) and len(tup) == 2 and isinstance(tup[0], dict):
+                left = len(T._loaded(tup[0].get("#0", tup[0].get("0"))))
+                mode = tup[1].get("__variant__") if isinstance(tup[1], dict) else tup[1]
+            return ("ok", [T._loaded(x) for x in out], left, mode)
+        if isinstance(res, dict) and res.get("__variant__") == "Err":
+            inner = res.get("#0")
+            return ("err", inner.get("__variant__") if isinstance(inner, dict) else None, [T._loaded(x) for x in out])
+        return ("other",)
+    tab = {}
+    for up in (False, True):
+        for v in range(256):
+            pre = [235] if up else []
+            try:
+                if not up and v == 129:
+                    tab[(up, v)] = ("loop", "pad checking")
+                    continue
+                got = run(pre + [v, NEXT])
+                if got[0] == "err":
+                    tab[(up, v)] = ("err", got[1])
+                elif got[0] == "ok" and got[3] not in (None, "Ascii") and got[2] == 1:
+                    # returned right after this codeword with a latch
+                    tab[(up, v)] = ("latch", got[3], tuple(got[1]))
+                elif got[0] == "ok" and got[3] == "Ascii" and got[2] == 0 and got[1][-1:] == [NEXT - 1]:
+                    tab[(up, v)] = ("cont", tuple(got[1][:-1]), False)
+                elif got[0] == "ok" and got[3] == "Ascii" and got[2] == 0 and got[1][-1:] == [NEXT - 1 + 128]:
+                    # the following codeword came out shifted: this one set the upper-shift state
+                    tab[(up, v)] = ("cont", tuple(got[1][:-1]), True)
+                else:
+                    tab[(up, v)] = ("other", repr(got)[:80])
+            except _Special as sp:
+                tab[(up, v)] = (sp.what,)
+            except T.Trap as ex:
+                tab[(up, v)] = ("trap", str(ex))
+            except T.Undecidable as ex:
+                tab[(up, v)] = ("undecidable", str(ex))
+    return tab
+
+
+def _ascii_dec_table_loop(f, rule):
     fn = "decodation::decode_ascii"
     need(fn in f.thir, rule, fn)
     b = f.thir[fn]
